@@ -142,3 +142,62 @@ pub fn record(w: &mut dyn std::io::Write, seed: u64, n_events: usize) {
     }
     w.flush().unwrap();
 }
+
+/// X10 (H2/H3): record the STEPS the simplification state machines take (vertex removals of Visvalingam-Whyatt, interval
+/// split / cull / keep of Douglas-Peucker) together with the result; Trace_SimplifySteps.tla replays every step through the
+/// actions of SimplifySM.tla.  Nothing is judged here.
+pub fn record_steps(w: &mut dyn std::io::Write, seed: u64, n_events: usize) {
+    use rand::{rngs::StdRng, Rng, SeedableRng};
+    let mut rng = StdRng::seed_from_u64(seed ^ 0x510);
+    let eps_list: [(i64, i64); 8] = [(1, 4), (1, 2), (1, 1), (3, 2), (5, 2), (7, 1), (20, 1), (100, 1)];
+    for k in 0..n_events {
+        let nv = match k % 5 { 0 => rng.gen_range(3..8), 1 => rng.gen_range(8..20), 2 => rng.gen_range(20..40), 3 => rng.gen_range(0..4), _ => rng.gen_range(5..14) };
+        let style = k % 4;
+        let span = if k % 7 == 0 { 3 } else { 20 };
+        let mut cs: Vec<Coord<f64>> = vec![];
+        let (mut x, mut y) = (rng.gen_range(0..=span), rng.gen_range(0..=span));
+        for _ in 0..nv {
+            cs.push(Coord { x: x as f64, y: y as f64 });
+            match style {
+                0 => { x = (x + rng.gen_range(-3..=3i64)).clamp(0, span); y = (y + rng.gen_range(-3..=3i64)).clamp(0, span); }
+                1 => { x = (x + rng.gen_range(0..=3i64)).clamp(0, span); y = (y + rng.gen_range(-1..=1i64)).clamp(0, span); }
+                2 => { x = rng.gen_range(0..=span); y = rng.gen_range(0..=span); }
+                _ => { x = (x + 1).clamp(0, span); if rng.gen_range(0..5) == 0 { y = (y + rng.gen_range(-4..=4i64)).clamp(0, span); } }
+            }
+        }
+        let closed = k % 3 == 0 && cs.len() >= 3;
+        if closed {
+            let f = cs[0];
+            cs.push(f);
+        }
+        let (en, ed) = eps_list[rng.gen_range(0..eps_list.len())];
+        let eps = en as f64 / ed as f64;
+        let ls = LineString::new(cs.clone());
+        let ints = |v: &[Coord<f64>]| -> Value { Value::Array(v.iter().map(|c| json!([c.x as i64, c.y as i64])).collect()) };
+        let idx1 = |v: Vec<usize>| -> Value { Value::Array(v.into_iter().map(|i| json!(i + 1)).collect()) };
+        let steps = || -> Value { Value::Array(geo::verif_hooks::take_steps().into_iter().map(|(l, a)| json!([l, a[0], a[1], a[2]])).collect()) };
+        // which call is recorded: the index variants on the line string, or (closed inputs) Polygon::simplify on the ring (minimum 4)
+        let ring_mode = closed && k % 2 == 0;
+        let r = guard(|| {
+            let _ = geo::verif_hooks::take_steps();
+            if ring_mode {
+                let out = Polygon::new(ls.clone(), vec![]).simplify(eps).exterior().0.clone();
+                let s_rdp = steps();
+                (vec![], s_rdp, vec![], Value::Array(vec![]), out)
+            } else {
+                let rdp = ls.simplify_idx(eps);
+                let s_rdp = steps();
+                let vw = ls.simplify_vw_idx(eps);
+                let s_vw = steps();
+                (rdp, s_rdp, vw, s_vw, vec![])
+            }
+        });
+        let ev = match r {
+            Ok((rdp, s_rdp, vw, s_vw, ring_cs)) => json!({"cs": ints(&cs), "eps": [en, ed], "minpts": if ring_mode { 4 } else { 2 }, "ring": ring_mode,
+                "ring_cs": ints(&ring_cs), "rdp": idx1(rdp), "rdp_steps": s_rdp, "vw": idx1(vw), "vw_steps": s_vw, "st": "ok"}),
+            Err(e) => json!({"cs": ints(&cs), "eps": [en, ed], "minpts": 2, "ring": ring_mode, "ring_cs": [], "rdp": [], "rdp_steps": [], "vw": [], "vw_steps": [], "st": format!("panic: {e}")}),
+        };
+        writeln!(w, "{ev}").unwrap();
+    }
+    w.flush().unwrap();
+}
